@@ -14,6 +14,10 @@ def run(ck):
                "to 9 children, every hash function, every presentation order: probes terminate (NEVER branches unreachable), one slot per "
                "parent with the right count, the scan finds exactly the complete parents within the n/6 buffer, the lookup classifies "
                "every cell correctly")
+    if not q:
+        ck.mc("MC_CompactAlgo", "MC_CompactAlgo_deep.cfg", workers=vlib.NCPU, xmx="20g", timeout=3400,
+              what="the same with 4 parents (one pentagon), up to 9 children, 2 spare slots: 143,873,783 distinct states when measured "
+                   "(10 min on 8 workers)")
     neg = vlib.tlc("MC_CompactAlgo", "MC_CompactAlgo_neg.cfg", workers=vlib.NCPU, xmx="12g")
     if neg["verdict"] != "invariant":
         raise vlib.InfraError("negative control (probing modulo the allocated length) was not rejected: %s" % neg["verdict"])
